@@ -109,7 +109,10 @@ class WsMock:
                     body += " trailing"
                 elif how == "extra-member":
                     body = body[:-1] + ', "keyDeliveryMethod": "http"}'
-                return {"status": 200, "headers": [("Content-Type", "application/json; charset=utf-8")], "body": body.encode()}
+                status = 200
+                if how.startswith("status-"):
+                    status = int(how.split("-")[1])      # the key document arrives with a success status other than 200
+                return {"status": status, "headers": [("Content-Type", "application/json; charset=utf-8")], "body": body.encode()}
             if f:
                 return self._apply_fault(f)
             k = self.new_key()
